@@ -61,6 +61,15 @@ def make_pkg(ws):
         add("func hp_%d(a [%d]byte) { //@\n}\n" % (n, n), "hp", n)
         add("func rv_%d(xs []struct{ a [%d]byte }) {\n\tfor _, x := range xs { //@\n\t\t_ = x\n\t}\n}\n" % (n, n), "rv", n)
         add("func re_%d() {\n\tvar arr [%d]byte\n\tfor _, x := range arr { //@\n\t\t_ = x\n\t}\n}\n" % (n, n), "re", n)
+    # instantiated generic types, named and alias array types: they have a size like any other type
+    src.append("type Box[T any] struct{ v T }\n")
+    for n in NS:
+        add("func hpg_%d(a Box[[%d]byte]) { //@\n}\n" % (n, n), "hp", n)
+        add("func rvg_%d(xs []Box[[%d]byte]) {\n\tfor _, x := range xs { //@\n\t\t_ = x\n\t}\n}\n" % (n, n), "rv", n)
+        add("type NArr_%d [%d]byte\n\nfunc ren_%d() {\n\tvar arr NArr_%d\n\tfor _, x := range arr { //@\n\t\t_ = x\n\t}\n}\n" % (n, n, n, n), "re", n)
+        add("type AArr_%d = [%d]byte\n\nfunc rea_%d() {\n\tvar arr AArr_%d\n\tfor _, x := range arr { //@\n\t\t_ = x\n\t}\n}\n" % (n, n, n, n), "re", n)
+        # nothing is copied into a blank value: silent, or the size of the element - never another number
+        add("func rvb_%d(xs []struct{ a [%d]byte }) {\n\tfor _, _ = range xs { //@\n\t}\n}\n" % (n, n), "rvB", n)
     # function-local named types that share one name (distinct types, equal spelling, different sizes)
     for n in NS:
         add("func rvl_%d() {\n\ttype rec struct{ a [%d]byte }\n\tvar xs []rec\n\tfor _, x := range xs { //@\n\t\t_ = x\n\t}\n}\n" % (n, n), "rvl", n)
@@ -250,6 +259,9 @@ def run(tier):
                 elif ts_rep and ts_not and max(ts_rep) > min(ts_not):
                     res.add_violation("non-monotone:commentedOutCode.minLength", "a %d-rune comment is reported at minLength=%d but not at %d" % (n, max(ts_rep), min(ts_not)), {"n": n})
             for n in sorted(edge):
+                # "length of the comment": its text (n runes) or the whole comment with its marker ("// " + text)
+                if edge[n] not in (n, n + 3):
+                    res.add_violation("boundary:commentedOutCode.minLength:reported-beyond", "a code comment of %d runes (%d with its marker) is reported up to minLength=%d" % (n, n + 3, edge[n]), {"n": n, "edge": edge[n]})
                 if n + 1 in edge:
                     res.count("unit_step_checks")
                     if edge[n + 1] != edge[n] + 1:
@@ -264,6 +276,16 @@ def run(tier):
             # for every family a larger threshold value is the more permissive one
             if not s2 <= s1:
                 res.add_violation("non-monotone:%s.%s" % (ck, pn), "%s: raising %s from %d to %d added diagnostics at %s" % (ck, pn, t1, t2, sorted(s2 - s1)[:3]), {"checker": ck, "t1": t1, "t2": t2})
+    # (d0) a blank range value: if anything is said at all, the size is the element's
+    for ln, (f2, n) in fam_of_line.items():
+        if f2 != "rvB":
+            continue
+        for d in diags.get("rv=1", []):
+            if d["checker"] == "rangeValCopy" and d["line"] == ln and d["file"] == thr_file:
+                res.count("size_message_checks")
+                m = re.search(r"copies (\d+) bytes", d["text"])
+                if m and int(m.group(1)) != n:
+                    res.add_violation("size-in-message:rangeValCopy:blank-value", "rangeValCopy says %s bytes for `for _, _ = range xs` over elements of %d bytes" % (m.group(1), n), {"line": ln, "message": d["text"]})
     # (d) byte sizes quoted in messages
     for fam, idx, ck in (("hpP", 0, "hugeParam"), ("rvP", 0, "rangeValCopy"), ("reP", 1, "rangeExprCopy")):
         vec = {"hpP": "hp=1", "rvP": "rv=1", "reP": "re=1"}[fam]
